@@ -4,5 +4,5 @@ CONSTANTS
   Ms = {3}
   AllLimits = FALSE
   PoolN = 2
-INVARIANTS TypeOK WriteBound ReadBound NoLimit EvCovers EvValid DeathIffNoPush SplOrder
+INVARIANTS StepProps
 CHECK_DEADLOCK FALSE
